@@ -1,0 +1,14 @@
+//go:build verif
+
+package bigxy
+
+import (
+	geom "github.com/twpayne/go-geom"
+	"github.com/twpayne/go-geom/xy/orientation"
+)
+
+// VerifOrientationIndexFilter exposes the floating-point filter stage of
+// OrientationIndex to the verification harness (build tag verif only).
+func VerifOrientationIndexFilter(vectorOrigin, vectorEnd, point geom.Coord) orientation.Type {
+	return orientationIndexFilter(vectorOrigin, vectorEnd, point)
+}
